@@ -82,6 +82,10 @@ def ctc_classes(ops, shapes=SHAPES):
     out = [("ctc:" + op, inject.inj_ctc_op(op)) for op in ops]
     out += [("ctc:" + s, inject.inj_ctc_shape(s, ops)) for s in shapes]
     out += [("ctc:many", inject.inj_ctc_many(ops)), ("ctc:more-than-40", inject.inj_many_ctcs(ops))]
+    assoc = tuple(o for o in ("AND", "OR", "XOR") if o in ops)
+    out += [("ctc:chain7-20", inject.inj_ctc_chain(assoc)), ("ctc:chain17-70", inject.inj_ctc_chain(assoc, (17, 70))),
+            ("ctc:wide11-15", inject.inj_ctc_wide(tuple(o for o in ("AND", "OR", "IMPLIES") if o in ops))),
+            ("ctc:duplicated", inject.inj_dup_ctc)]
     return out
 
 
@@ -130,8 +134,10 @@ class UVL(Fmt):
                                                                "cmp-under-logic")]
         for t in ("name:space", "name:punct", "name:astop-word", "name:astop-embedded", "name:leading-digit",
                   "name:leading-underscore", "name:lower-start", "name:latin1", "name:cjk", "name:astral",
-                  "name:combining", "name:squote", "name:backslash", "name:xml-special", "name:long200"):
+                  "name:combining", "name:squote", "name:backslash", "name:xml-special", "name:long200",
+                  "name:unicode-digit", "name:line-separators", "name:numeric-looking"):
             c.append((t, inject.inj_rename(t)))
+        c.append(("name:dash-twin", inject.inj_dash_twin))
         c.append(("name:uvl-keyword", inject.inj_rename("name:uvl-keyword", inject.UVL_KEYWORDS)))
         c.append(("name:case-twin", inject.inj_case_twin))
         c.append(("name:root-space", inject.inj_rename("name:space", where="root")))
@@ -175,6 +181,8 @@ class JSONF(Fmt):
         c.append(("name:root-space", inject.inj_rename("name:space", where="root")))
         c.append(("name:all-hostile", inject.inj_rename_all("name:punct")))
         c.append(("name:case-twin", inject.inj_case_twin))
+        c.append(("name:dash-twin", inject.inj_dash_twin))
+        c.append(("rel:card[a..*]", inject.inj_group(lambda k: 1 if k < 3 else 2, -1)))
         return c
 
 
@@ -185,7 +193,7 @@ class AFM(Fmt):
     def classes(self):
         c = list(REL_COMMON) + list(REL_CARD) + list(REL_MULTI)
         c += [("attr:afm-int-range", inject.inj_afm_attr("int-range")), ("attr:afm-two-ranges", inject.inj_afm_attr("two-ranges")),
-              ("attr:afm-enum", inject.inj_afm_attr("enum"))]
+              ("attr:afm-enum", inject.inj_afm_attr("enum")), ("attr:afm-enum-strings", inject.inj_afm_attr_strings)]
         c += ctc_classes(LOG7)
         c.append(("name:afm-word", inject.inj_rename("name:afm-word")))
         c.append(("name:afm-word-root", inject.inj_rename("name:afm-word", where="root")))
@@ -244,14 +252,29 @@ def run_cycles(fmt, spec, cycles, workdir):
                 out.update(status="raises", where=f"writer@cycle{i + 1}", exc=e)
                 break
             out["texts"].append(t if isinstance(t, str) else bytes(t).decode("utf-8", "replace"))
+            if i == 0:
+                out["extra"] = history_write_after_edit(fmt, W, m, spec, workdir)
             try:
-                m = R(p).transform()
+                rd = R(p)
+                m = rd.transform()
             except Exception as e:  # noqa: BLE001
                 out.update(status="raises", where=f"reader@cycle{i + 1}", exc=e)
                 break
             if i == 0:
                 out["wf"] = wf.problems(m)
-                out["extra"] = fmt.extra(p, m)
+                out["extra"] = out.get("extra") or fmt.extra(p, m)
+                if not out["extra"]:
+                    # history: the same reader object asked again returns the same model (and leaves the first intact)
+                    try:
+                        o1 = S.observe(m)
+                        m_again = rd.transform()
+                        if S.observe(m_again) != o1:
+                            out["extra"] = ("same-reader-asked-again", "model-differs-on-second-transform",
+                                            first_obs_diff(o1, S.observe(m_again)))
+                        elif S.observe(m) != o1:
+                            out["extra"] = ("same-reader-asked-again", "first-model-changed-by-second-transform", "")
+                    except Exception as e:  # noqa: BLE001
+                        out["extra"] = ("same-reader-asked-again", f"raises:{type(e).__name__}@second-transform", str(e)[:200])
             try:
                 out["obs"].append(S.observe(m))
             except Exception as e:  # noqa: BLE001
@@ -261,6 +284,66 @@ def run_cycles(fmt, spec, cycles, workdir):
             out["status"] = "ok"
     out["stderr"] = err.getvalue()
     return out
+
+
+def history_write_after_edit(fmt, W, m, spec, workdir):
+    """History: the model was just written; edit it IN PLACE in a way the format carries (abstract flag,
+    attribute value, constraint name - none of which takes part in FeatureModel.__eq__) and write it again with
+    a new writer object: the text must be the text of a freshly built model with the same edit."""
+    import copy
+    es = copy.deepcopy(spec)
+    feats_s = list(S.features(es["root"]))
+    objs = []
+    stack = [m.root]
+    while stack:
+        f = stack.pop()
+        objs.append(f)
+        for rel in reversed(f.relations):
+            stack.extend(reversed(rel.children))
+    edited = False
+    if "abstract" in fmt.fields and len(objs) > 1:
+        objs[-1].is_abstract = not objs[-1].is_abstract
+        for f in feats_s:
+            if f["name"] == objs[-1].name:
+                f["abstract"] = not f.get("abstract", False)
+        edited = True
+    if fmt.attrs == "value":
+        for f in objs:
+            if f.attributes:
+                f.attributes[0].default_value = 424242
+                for fs in feats_s:
+                    if fs["name"] == f.name:
+                        fs["attrs"][0]["value"] = 424242
+                edited = True
+                break
+    if fmt.ctc_names and m.ctcs:
+        m.ctcs[0].name = "renamed-after-first-write"
+        es["ctcs"][0]["name"] = "renamed-after-first-write"
+        edited = True
+    if not edited:
+        return None
+    try:
+        t_edit = W(os.path.join(workdir, "edit." + fmt.ext), m).transform()
+        t_fresh = W(os.path.join(workdir, "fresh." + fmt.ext), S.build(es)).transform()
+    except Exception as e:  # noqa: BLE001
+        return ("write-after-in-place-edit", f"raises:{type(e).__name__}@writer", str(e)[:200])
+    finally:
+        # undo the edit so that the cycles continue on the original model
+        m2 = S.build(spec)
+    if t_edit != t_fresh:
+        return ("write-after-in-place-edit", "stale-output", "output after an in-place edit differs from the output of a "
+                "freshly built model with the same edit")
+    # restore the original state on the live object (cycles continue with it)
+    o = list(S.features(spec["root"]))
+    byname = {f["name"]: f for f in o}
+    for f in objs:
+        f.is_abstract = bool(byname[f.name].get("abstract", False))
+        for a, sa in zip(f.attributes, byname[f.name].get("attrs", [])):
+            if "value" in sa:
+                a.default_value = sa["value"]
+    for c, sc in zip(m.ctcs, spec.get("ctcs", [])):
+        c.name = sc["name"]
+    return None
 
 
 def judge(fmt, spec, cycles, workdir):
